@@ -1620,9 +1620,20 @@ class CCodeGenerator:
 
     def gen_va_arg(self, expr: expressions.BuiltInVaArg):
         """Generate code for a va_arg operation"""
-        # TODO: how to deal with proper alignment?
         valist_ptrptr = self.gen_expr(expr.arg_pointer, rvalue=False)
         va_ptr = self.emit(ir.Load(valist_ptrptr, "va_ptr", ir.ptr))
+        # The caller (see gen_fill_varargs) places each argument at the
+        # next offset which is a multiple of the alignment of its type,
+        # in a slab aligned for all arguments. Skip that padding here:
+        alignment = self.data_layout(expr.typ)[1]
+        if alignment > 1:
+            uint_typ = ir.get_ty(f"u{self.ptr_size * 8}")
+            mask = (1 << (self.ptr_size * 8)) - alignment
+            address = self.builder.emit_cast(va_ptr, uint_typ)
+            address = self.builder.emit_add(address, alignment - 1, uint_typ)
+            mask = self.emit(ir.Const(mask, "mask", uint_typ))
+            address = self.builder.emit_binop(address, "&", mask, uint_typ)
+            va_ptr = self.builder.emit_cast(address, ir.ptr)
         ir_typ = self.get_ir_type(expr.typ)
         # Load the variable argument:
         value = self.emit(ir.Load(va_ptr, "va_arg", ir_typ))
